@@ -140,10 +140,12 @@ def bind_tunnel(chk, results):
                     lambda t: (t["capup"], t["lazy"]),
                     lambda g: {"TT_CAPUP": str(g[0]), "TT_LAZY": str(g[1])},
                     hs_up="p", hs_dn="pk", out_side="up", tunw_side="dn")
-    return d1 + d2
+    d3 = _bind_half(chk, results, "TRAW", "TraceRawTunnel", "raw", lambda t: (0,), lambda g: {},
+                    hs_up="p_up", hs_dn="p_dn", out_side="up", tunw_side="up", raw=True)
+    return d1 + d2 + d3
 
 
-def _bind_half(chk, results, key, module, tag, groupfn, envfn, hs_up, hs_dn, out_side, tunw_side):
+def _bind_half(chk, results, key, module, tag, groupfn, envfn, hs_up, hs_dn, out_side, tunw_side, raw=False):
     import json
     import os
     groups = {}
@@ -169,6 +171,19 @@ def _bind_half(chk, results, key, module, tag, groupfn, envfn, hs_up, hs_dn, out
             ex = []
             for e in t["events"]:
                 e = json.loads(json.dumps(e))
+                if raw:
+                    # raw mode: one trace holds both programs; the server reads upstream packets and emits downstream
+                    # ones, the client the other way round
+                    srv = e["e"] == "Srv"
+                    for h in e.get("hs", []):
+                        if h["p"]:
+                            h["p"] += base["dn" if (h["k"] == "Tun") == srv else "up"]
+                    for a in e.get("out", []):
+                        if a["p"]:
+                            a["p"] += base["dn" if srv else "up"]
+                    e["tunw"] = [x + base["up" if srv else "dn"] if x else 0 for x in e.get("tunw", [])]
+                    ex.append(e)
+                    continue
                 for h in e.get("hs", []):
                     if h.get(hs_up):
                         h[hs_up] += base["up"]
